@@ -194,6 +194,23 @@ func (p *Program) verifyFunc(key string, mode string) (u *Unit) {
 	if mode != "sweep" && mode != "own" {
 		e.addObl(&Obligation{Name: shortKey(key) + "#cover[entry]", Kind: "cover", Func: shortKey(key), Guard: "true", Goal: "false", IsCover: true, Text: "preconditions satisfiable"})
 		e.addObl(&Obligation{Name: shortKey(key) + "#cover[exit]", Kind: "cover", Func: shortKey(key), Guard: exitReach, Goal: "false", IsCover: true, Text: "some return reachable"})
+		// a function returning an error must be able to succeed (guards against a
+		// contradiction that only kills the success paths)
+		if n := len(results); n > 0 && isIface(results[n-1].Typ) && results[n-1].Typ.String() == "error" {
+			okPath := false
+			for _, r := range f.rets {
+				if r.vals[n-1].T == "nilIface" {
+					okPath = true
+				}
+			}
+			if okPath {
+				e.addObl(&Obligation{Name: shortKey(key) + "#cover[exit.ok]", Kind: "cover", Func: shortKey(key), Guard: and(exitReach, eq(results[n-1].T, "nilIface")), Goal: "false", IsCover: true, Text: "a successful return is reachable"})
+			}
+		}
+		for i, r := range f.rets {
+			e.addObl(&Obligation{Name: fmt.Sprintf("%s#cover.soft[return %d]", shortKey(key), i), Kind: "cover.soft", Func: shortKey(key), Guard: r.reach, Goal: "false", IsCover: true,
+				Text: "return reachable", Pos: relPath(p, p.Fset.Position(r.pos).String())})
+		}
 	}
 	if len(e.errs) > 0 {
 		u.Err = strings.Join(e.errs, "; ")
@@ -360,6 +377,9 @@ func (env *Env) instantiate(key string, fc *FuncContract, fn *ssa.Function, sig 
 		reqs = append(reqs, g)
 	}
 	for _, en := range fc.Ensures {
+		if exprCalls(en.E, "fresh") {
+			continue
+		}
 		g, err := n.evalBool(en.E)
 		if err != nil {
 			e.errorf("instantiating %s: ensures %q: %v", key, en.Text, err)
